@@ -2,6 +2,7 @@
 //! Sub-commands execute TLC-generated inputs / behaviours on the real API (G direction) or drive the
 //! real API with seeded random inputs, and record NDJSON traces that TLC validates (V direction).
 mod ex;
+mod extra;
 mod c01;
 mod c05;
 mod smt;
@@ -42,6 +43,7 @@ fn main() {
         "c19" => c19::run(rest),
         "c20" => c20::run(rest),
         "mc" => mc::run(rest),
+        "extras" => extra::run(rest),
         "enc" => mc::run_enc(rest),
         "cli" => mc::run_cli(rest),
         other => {
